@@ -32,6 +32,7 @@ Require Import V.Model.PubGetters.
 Require Import V.Proofs.C04Getters.
 Require Import V.Proofs.C04LimitContract.
 Require Import V.Proofs.C04Claims.
+Require Import V.Proofs.C04XClaims.
 Open Scope Z_scope.
 
 (* every reachable state satisfies the invariant the other statements are proved from *)
@@ -401,6 +402,19 @@ Theorem C04_oracle_history2 : forall m rv h ops,
   holds_history2 (geom_of_handover h) (map oop_of ops) (pub_trace m rv (pub_init (handover_log h)) ops) = true.
 Proof. exact oracle_history2_shared. Qed.
 Print Assumptions C04_oracle_history2.
+
+(* the same for the exclusive publication *)
+Theorem C04_claim_after_accept_exclusive : forall m rv x n len x' p, xpub_inv n x -> op_ok (xlog x) (Claim len) ->
+  xpub_step m rv x (Claim len) = (x', Ok p) -> ps_claim (x_pub x') = Some (x_idx x, x_off x, len + 32).
+Proof. exact xstep_claim_new. Qed.
+Print Assumptions C04_claim_after_accept_exclusive.
+
+Theorem C04_oracle_history2_exclusive : forall m rv h ops x0,
+  handover_ok h -> handover_aligned h -> hist_ok (handover_log h) ops -> xpub_new (handover_log h) = Ok x0 ->
+  xclean_before_reuse m rv x0 ops -> xcommits_in_place m rv x0 ops ->
+  holds_history2 (geom_of_handover h) (map xoop_of ops) (xpub_trace m rv x0 ops) = true.
+Proof. exact xoracle_history2. Qed.
+Print Assumptions C04_oracle_history2_exclusive.
 
 (* ---- the limit contract (`limit_ok`: limit <= TL*2^31 + TL/2), examined (round 3) ----
    Negative limits, limits below the position, i64::MIN: always inside the contract (it is an upper bound only).
